@@ -601,13 +601,16 @@ fn index_set_string(string: &mut String, mut index: isize, value: Object) -> Res
         ));
     }
 
+    // The value can be the very string that is being modified (s[0] = s),
+    // so it is copied first instead of being read while the target changes
+    let replacement = value.as_str().to_string();
     string.replace_range(
         string
             .char_indices()
             .nth(index)
             .map(|(pos, ch)| (pos..pos + ch.len_utf8()))
             .unwrap(),
-        value.as_str(),
+        &replacement,
     );
 
     Ok(())
